@@ -114,6 +114,11 @@ func runCase(h handler, args []int) ([]int, []int, string) {
 }
 
 func main() {
+	// the media-hook recorder writes to VERIF_DUMP_FILE: one file per harness process, so that parallel shards (and the hook
+	// programs they start, which inherit the environment) never share it
+	if p := os.Getenv("VERIF_DUMP_FILE"); p != "" {
+		os.Setenv("VERIF_DUMP_FILE", p+"."+strconv.Itoa(os.Getpid()))
+	}
 	if len(os.Args) < 2 {
 		fmt.Fprintln(os.Stderr, "usage: verifharness <cases>")
 		os.Exit(2)
